@@ -18,7 +18,7 @@ RULE = ("case = one execution of a corpus plan that stages, sets, kicks off and 
         "= something was staged, set, kicked off or monitored when the request landed")
 ASSUMPTIONS = ["fake devices follow the ophyd staging contract (redundant stage raises)",
                "an unstage of a device that was never staged is not a violation",
-               "faults are injected into stage/set/trigger/read/kickoff/complete only (not into the cleanup calls themselves)"]
+               "faults are injected into stage/set/trigger/read/kickoff/complete and into a signal's subscribe/clear_sub (one failure per execution; the engine's own retry in its clean-up then succeeds)"]
 REQUIRED_COUNTERS = {"executions": 1000, "idle_points_judged": 1000, "staged_at_landing": 300, "moved_at_landing": 300,
                      "kicked_at_landing": 20, "monitored_at_landing": 100, "fault_executions": 50}
 MANIFEST = {
@@ -31,7 +31,7 @@ MANIFEST = {
     "note": "Corpus plans x all coordinates x fault points; fakes, not real hardware.",
     "design_ref": "3 (C06)",
 }
-PLANS_Q = ["scan", "custom", "fly", "norun", "clearcp", "count"]
+PLANS_Q = ["scan", "custom", "fly", "norun", "clearcp", "count", "mon_closeleft"]
 PLANS_T = PLANS_Q + ["grid", "nested", "rel_scan", "list_scan", "custom_mon", "neverclose"]
 SHARD_TIMEOUT = {"quick": 900, "thorough": 3600}
 worker_init = sweepcheck.worker_init
@@ -99,9 +99,10 @@ def judge(ex, ref, case):
             problems.append(("no-stop-after-last-set", f"{name}: last set at log {s['last_set']}, last stop {s['last_stop']}"))
         if s["last_kick"] is not None and (s["last_collectish"] is None or s["last_collectish"] < s["last_kick"]):
             problems.append(("kicked-off-flyer-not-collected", f"{name}: kickoff at {s['last_kick']}, collect attempt {s['last_collectish']}"))
-    sig_dev = d.get("sig")
-    if sig_dev is not None and sig_dev.subs:
-        problems.append((f"monitor-subscription-left:{len(sig_dev.subs)}", f"sig still has {len(sig_dev.subs)} callback(s)"))
+    for sname in ("sig", "sig2"):
+        sig_dev = d.get(sname)
+        if sig_dev is not None and sig_dev.subs:
+            problems.append((f"monitor-subscription-left:{len(sig_dev.subs)}", f"{sname} still has {len(sig_dev.subs)} callback(s)"))
     # what was outstanding at landing
     first = next((i for i, e in enumerate(log) if e[0] in ("inject", "fault")), 0)
     at = ledger_state(log, first)
@@ -140,7 +141,7 @@ def run_case(case):
         ref, _ = reference_coords({"plan": case["plan"]})
         ops, counts = [], {}
         for e in ref.log:
-            if e[0] == "dev" and e[2] in ("set", "trigger", "read", "stage", "kickoff", "complete"):
+            if e[0] == "dev" and e[2] in ("set", "trigger", "read", "stage", "kickoff", "complete", "clear_sub", "subscribe"):
                 k = (e[1], e[2])
                 counts[k] = counts.get(k, 0) + 1
                 ops.append((e[1], e[2], counts[k]))
